@@ -22,7 +22,7 @@ func init() {
 		ID:    "C11",
 		Level: "fault_enumeration",
 		Rule: "request scripts (attach, walks onto new fids, in-place walk, open of file and directory, read, create, clunk, remove) are played by a raw 9P client against p9p.ServeConn(SSession(SFileSys(instrumented FS))) on a fault-injecting in-memory connection; a prologue completes request by request, then an in-flight set is sent whose handlers park inside their FS call. " +
-			"A fault-free recording gives B inbound bytes and W outbound writes; then ONE fault per run is injected at EVERY index: read error at every inbound byte k in [0,B], peer EOF at every byte k, failure of every reply write j (at once, and with the failing write parked until two further completions are queued behind it), serving-context cancel after every reply count; " +
+			"A fault-free recording gives B inbound bytes and W outbound writes; then ONE fault per run is injected at EVERY index: read error at every inbound byte k in [0,B], peer EOF at every byte k, failure of every reply write j (at once, and with the failing write parked until two further completions are queued behind it), serving-context cancel after every reply count, and serving-context cancel while reply write j is stalled inside the connection's Write (the writer goroutine cannot notice the cancellation); one script runs against a file system that requires authentication and has two auth fids outstanding at the fault; " +
 			"each x in-flight handlers that {return an error when cancelled, finish their FS call successfully right after being cancelled, had already finished}. Oracle at quiescence (goroutine states): every in-flight handler's ctx is Done; ServeConn has returned; Handler.Stop ran exactly once; afterwards the fid table (verif hook) holds no bound entry, " +
 			"every handle the FS handed out for binding was released exactly once (no leak, no double release, no use after release — including entries bound by handlers that finished after the cancellation); the worker process did not crash. non-trivial = >= 1 handler in flight at the fault; distinct by (script, fault kind, index, in-flight behaviour)",
 		Assumptions: []string{
@@ -36,7 +36,7 @@ func init() {
 		Shards:    shards(8, 16),
 		Timeout:   timeouts(4*time.Minute, 40*time.Minute),
 		MinEvals:  200,
-		Required:  []string{"fault:read-error", "fault:read-eof", "fault:write-fail", "fault:write-fail-parked", "fault:ctx-cancel", "inflight:error-on-cancel", "inflight:succeed-after-cancel", "inflight:none", "handlers_in_flight_at_fault", "ctx_done_checks", "serve_returned", "stop_once", "tables_empty", "entries_bound_after_cancel"},
+		Required:  []string{"fault:read-error", "fault:read-eof", "fault:write-fail", "fault:write-fail-parked", "fault:ctx-cancel", "fault:ctx-cancel-writer-busy", "ctx_cancelled_while_writer_busy", "auth_fids_at_stop", "inflight:error-on-cancel", "inflight:succeed-after-cancel", "inflight:none", "handlers_in_flight_at_fault", "ctx_done_checks", "serve_returned", "stop_once", "tables_empty", "entries_bound_after_cancel"},
 		Run:       runC11,
 	})
 }
@@ -122,7 +122,16 @@ func c11Scripts() [][]c11step {
 		P(p9p.MessageTstat{Fid: 0}),
 		T(p9p.MessageTwalk{Fid: 0, Newfid: 6, Wnames: []string{"d", "f"}}),
 	)
-	return [][]c11step{s1, s2, s3}
+	// s4: the file system requires authentication; two auth fids are outstanding when the fault strikes
+	s4 := []c11step{
+		T(p9p.MessageTauth{Afid: 20, Uname: "u"}),
+		T(p9p.MessageTattach{Fid: 0, Afid: nofid, Uname: "u"}),
+		T(p9p.MessageTwalk{Fid: 0, Newfid: 1, Wnames: []string{"d"}}),
+		T(p9p.MessageTauth{Afid: 21, Uname: "v"}),
+		P(p9p.MessageTwalk{Fid: 0, Newfid: 11, Wnames: []string{"d", "e"}}),
+		P(p9p.MessageTattach{Fid: 10, Afid: nofid, Uname: "u"}),
+	}
+	return [][]c11step{s1, s2, s3, s4}
 }
 
 const (
@@ -146,6 +155,7 @@ type c11run struct {
 	script []c11step
 	desc   string
 
+	writerBusy    bool
 	flyingAtFault []context.Context // handlers in flight just before the step during which the fault struck
 
 	gmu                sync.Mutex
@@ -208,6 +218,11 @@ func newC11(w *mon.W, script []c11step, desc string) *c11run {
 	for attempt := 0; attempt < 3; attempt++ {
 		r.fs = fsx.New()
 		r.fs.Gate = r.gate
+		for _, st := range script {
+			if _, ok := st.msg.(p9p.MessageTauth); ok {
+				r.fs.AuthRequired = true
+			}
+		}
 		r.sess = p9p.SFileSys(r.fs)
 		r.obs = &obsHandler{inner: p9p.SSession(r.sess)}
 		h, err := newSrvH(r.obs, 8192, 1<<20)
@@ -240,7 +255,7 @@ func (r *c11run) play(f *c11fault) {
 		case "write-fail":
 			r.h.conn.WriteFailAt = wBase + f.index
 			r.h.conn.WriteErr = errors.New("injected write failure")
-		case "write-fail-parked":
+		case "write-fail-parked", "ctx-cancel-writer-busy":
 			r.h.conn.WriteFailAt = wBase + f.index
 			r.h.conn.WriteErr = errors.New("injected write failure")
 			r.h.conn.WriteGate = make(chan struct{})
@@ -275,6 +290,15 @@ func (r *c11run) play(f *c11fault) {
 		if !st.park {
 			replies += len(r.h.take())
 		}
+		if f != nil && f.kind == "ctx-cancel-writer-busy" {
+			select {
+			case <-r.h.conn.WriteParked:
+				// a reply is being written and the write does not complete: the context is cancelled in this state
+				r.writerBusy = true
+				return
+			default:
+			}
+		}
 		if f != nil && f.kind == "write-fail-parked" {
 			select {
 			case <-r.h.conn.WriteParked:
@@ -299,9 +323,6 @@ func (r *c11run) play(f *c11fault) {
 
 func runC11(w *mon.W) {
 	scripts := c11Scripts()
-	if !w.Thorough() {
-		scripts = scripts[:3]
-	}
 	reps := w.Scale(1, 24)
 	idx := 0
 	for rep := 0; rep < reps; rep++ {
@@ -325,6 +346,9 @@ func runC11(w *mon.W) {
 				}
 				for e := 0; e <= W+1; e++ {
 					faults = append(faults, c11fault{"ctx-cancel", e, beh})
+				}
+				for j := 1; j <= W+1; j++ {
+					faults = append(faults, c11fault{"ctx-cancel-writer-busy", j, beh})
 				}
 			}
 			for _, f := range faults {
@@ -408,6 +432,31 @@ func c11Run(w *mon.W, script []c11step, si int, f *c11fault) {
 	switch f.kind {
 	case "ctx-cancel":
 		r.h.cancel()
+	case "ctx-cancel-writer-busy":
+		if !r.writerBusy && !r.h.served() && f.behave != c11None {
+			// the write to be stalled is the first reply of the in-flight set: let one handler complete
+			r.releaseN(1)
+			settle()
+			select {
+			case <-r.h.conn.WriteParked:
+				r.writerBusy = true
+			default:
+			}
+			flying = r.obs.inFlight()
+			inflight = len(flying)
+		}
+		if r.writerBusy {
+			w.Count("ctx_cancelled_while_writer_busy", 1)
+		}
+		r.h.cancel()
+		defer func() {
+			// cleanup only, after the verdict: let the stalled write fail
+			select {
+			case <-r.h.conn.WriteGate:
+			default:
+				close(r.h.conn.WriteGate)
+			}
+		}()
 	case "write-fail", "write-fail-parked":
 		if !r.h.served() {
 			// the failing write has not been made yet: it is one of the replies of the
@@ -483,6 +532,10 @@ func c11Run(w *mon.W, script []c11step, si int, f *c11fault) {
 			}
 		}
 		w.Count("tables_empty", 1)
+		if r.fs.AuthRequired {
+			// what is left in the table after Stop are the auth fids (no entry bound)
+			w.Count("auth_fids_at_stop", int64(len(tab)))
+		}
 	}
 	if ps := r.fs.Problems(); len(ps) > 0 {
 		r.bad(ps[0].Kind, ps[0].Kind, "file-system monitor: %s", ps[0].Msg)
